@@ -1,10 +1,10 @@
 /-
 C01 — Laminate ABD/ABDE matrices are the through-thickness integral of rotated ply stiffness.
-Only property theorems live here; helper lemmas are in `Spec/RotationLemmas.lean`.
-Every theorem is about `Model/Laminate.lean`, which is tied to compmech/composite/*.py by the
-correspondence harness `tools/props/C01.py`.
+Only property theorems live here; helper lemmas are in `Spec/RotationLemmas.lean` and `Spec/LaminationLemmas.lean`.
+Every theorem is about `Model/Laminate.lean` / `Model/LaminationParams.lean`, which are tied to
+compmech/composite/*.py by the correspondence harness `tools/props/C01.py`.
 -/
-import CompmechVerif.Spec.RotationLemmas
+import CompmechVerif.Spec.LaminationLemmas
 
 namespace Compmech.Laminate.C01
 open Compmech.Laminate
@@ -138,6 +138,436 @@ theorem quadABD_eq_matrix (a : Acc ℝ) (e k : V3 ℝ) :
   quadABD_eq_matrix_aux a e k
 
 end real
+
+/-! ## The `Laminate` object: lamination parameters, `force_*`, equivalent moduli
+(`Model/LaminationParams.lean`; `Lam` is the object, every method returns the object it leaves and the exception it
+raises, if any). -/
+
+section lamination
+variable {K : Type} [Field K] [CharZero K]
+
+/-- The invariants identity behind the lamination-parameter formulas, for the array `matobj.u` as `MatLamina.rebuild`
+builds it: when `nu31 = nu32 = 0` (e.g. `nu13 = nu23 = 0`) the nine closed formulas of `Lamina.rebuild` are
+`Γ0 + Γ1 cos 2θ + Γ2 sin 2θ + Γ3 cos 4θ + Γ4 sin 4θ` with `u1 … u7` of the ply material, for every angle
+(`c² + s² = 1`; the double-angle values are derived from `c, s`). -/
+theorem rotQ_eq_invariants (m : MatProps K) (c s : K) (hcs : c ^ 2 + s ^ 2 = 1) (he1 : m.e1 ≠ 0)
+    (h31 : m.nu31 = 0) (h32 : m.nu32 = 0) :
+    rotQ c s (planeStressQ m) = lpFormula (invariants m) (trigOf c s).toXi := by
+  rw [invariants_eq_planeInvariants m he1 h31 h32]
+  exact rotQ_eq_planeInvariants c s _ hcs
+
+/-- The same identity FAILS for the material `read_laminaprop` builds from the documented isotropic tuple `(E, E, nu)`
+(`= (1, 1, 1/4)`; the completion sets `nu13 = nu23 = nu`): `matobj.u` is built from the THREE-dimensional stiffnesses
+(`u1 + u2 + u3 = c11 = 6/5`), the ply matrix from the plane-stress ones (`Q11 = 16/15`). -/
+theorem rotQ_eq_invariants_counterexample :
+    readLaminaprop [(1 : ℚ), 1, 1 / 4] = some mIso ∧
+    rotQ (1 : ℚ) 0 (planeStressQ mIso) ≠ lpFormula (invariants mIso) (trigOf 1 0).toXi :=
+  ⟨mIso_read, fun h => rotQ_eq_invariants_counterexample_aux (congrArg Q9.q11 h)⟩
+
+/-- On a laminate built by `read_stack` (plies without the attributes `cos2t, sin2t, cos4t, sin4t`: `Lamina.rebuild`
+never sets them), `calc_lamination_parameters` raises `AttributeError` as soon as there is a ply; it has overwritten
+`t` and nothing else.  (So on the real objects the round trip below can only be run after the caller has set the four
+attributes and `lam.matobj` by hand.) -/
+theorem calc_lamination_parameters_raises [DecidableEq K] (cs : List (K × K)) (plyt : Option K)
+    (laminaprop : Option (List K)) (plyts : List K) (laminaprops : List (List K)) (offset : K) (L : Lam K)
+    (h : readStackLam cs plyt laminaprop plyts laminaprops offset = .ok L) (hne : L.plies ≠ [])
+    (hT : lthickness L.plies ≠ 0) :
+    L.calcLaminationParameters = ({ L with t := some (lthickness L.plies) }, some .attributeError) ∧
+    L.matobj = none ∧ L.calcABDEFromLP = (L, some .attributeError) := by
+  obtain ⟨h1, h2, _⟩ := readStackLam_no_trig cs plyt laminaprop plyts laminaprops offset L h
+  refine ⟨calc_lamination_parameters_raises_aux L hne h1 hT, h2, ?_⟩
+  simp only [Lam.calcABDEFromLP, h2]
+
+/-- Round trip, the true part, ANY offset.  A stack of ONE material `m` with `nu31 = nu32 = 0`, any angles
+(`c_k² + s_k² = 1`), any ply thicknesses with non-zero sum, the plies carrying the double-angle attributes and
+`lam.matobj = m`: `calc_lamination_parameters` followed by `calc_ABDE_from_lamination_parameters` raises nothing and reports
+* `A` = the `A` of `calc_constitutive_matrix` (the through-thickness integral) — for every offset `d`;
+* `B` = that `B` MINUS `d·t·Γ0`, `D` = that `D` MINUS `d²·t·Γ0` (`Γ0` the isotropic part `u1, u4, u5` of the ply
+  matrix): `xiB[0] = 0` and `xiD[0] = 1` are hard-coded, i.e. `z` is measured from the mid-plane;
+* `E = [[E55, E45], [E45, E44]]`: the transverse-shear integral with its two directions EXCHANGED with respect to the
+  `E = [[E44, E45], [E45, E55]]` of `calc_constitutive_matrix`;
+* `ABD`, `ABDE` assembled from these blocks. -/
+theorem lp_roundtrip_offset_partial [DecidableEq K] (m : MatProps K) (cst : List (K × K × K)) (L : Lam K)
+    (he1 : m.e1 ≠ 0) (h31 : m.nu31 = 0) (h32 : m.nu32 = 0)
+    (hcs : ∀ x ∈ cst, x.1 ^ 2 + x.2.1 ^ 2 = 1)
+    (hplies : L.plies = cst.map (mkLPly m)) (hT : lthickness L.plies ≠ 0) (hm : L.matobj = some m) :
+    let S := abd (L.plies.map LPly.toPly) L.offset
+    let R := L.calcLaminationParameters.1.calcABDEFromLP.1
+    let QB := S.B.add (Q9.smul (-(L.offset * lthickness L.plies)) (gamma0 (invariants m)))
+    let QD := S.D.add (Q9.smul (-(L.offset ^ 2 * lthickness L.plies)) (gamma0 (invariants m)))
+    L.calcLaminationParameters.2 = none ∧ L.calcLaminationParameters.1.calcABDEFromLP.2 = none ∧
+    R.t = some (lthickness L.plies) ∧
+    R.A = some (sym3 S.A) ∧ R.B = some (sym3 QB) ∧ R.D = some (sym3 QD) ∧ R.E = some (shearSwapped S.A) ∧
+    R.ABD = some (block6 (sym3 S.A) (sym3 QB) (sym3 QB) (sym3 QD)) ∧
+    R.ABDE = some (block8 (block6 (sym3 S.A) (sym3 QB) (sym3 QB) (sym3 QD)) (shearSwapped S.A)) :=
+  lp_roundtrip_offset_partial_aux m cst L he1 h31 h32 hcs hplies hT hm
+
+/-- Round trip at offset 0 (the offset for which the formulas are right): under the hypotheses above,
+`t, A, B, D, ABD` after the lamination-parameter route are EXACTLY what `calc_constitutive_matrix` reports for the same
+object; `E` is that `E` with its two directions exchanged. -/
+theorem lp_roundtrip_partial [DecidableEq K] (m : MatProps K) (cst : List (K × K × K)) (L : Lam K)
+    (he1 : m.e1 ≠ 0) (h31 : m.nu31 = 0) (h32 : m.nu32 = 0)
+    (hcs : ∀ x ∈ cst, x.1 ^ 2 + x.2.1 ^ 2 = 1)
+    (hplies : L.plies = cst.map (mkLPly m)) (hT : lthickness L.plies ≠ 0) (hm : L.matobj = some m)
+    (hoff : L.offset = 0) :
+    let R := L.calcLaminationParameters.1.calcABDEFromLP.1
+    let C := L.calcConstitutiveMatrix
+    L.calcLaminationParameters.2 = none ∧ L.calcLaminationParameters.1.calcABDEFromLP.2 = none ∧
+    R.t = C.t ∧ R.A = C.A ∧ R.B = C.B ∧ R.D = C.D ∧ R.ABD = C.ABD ∧
+    R.E = some (shearSwapped (abd (L.plies.map LPly.toPly) 0).A) ∧
+    C.E = some (shearBlock (abd (L.plies.map LPly.toPly) 0).A) := by
+  intro R C
+  obtain ⟨h1, h2, ht, hA, hB, hD, hE, hM, _⟩ := lp_roundtrip_offset_partial_aux m cst L he1 h31 h32 hcs hplies hT hm
+  obtain ⟨ct, cA, cB, cD, cE, cM, _⟩ := calcConstitutiveMatrix_fields L
+  have z1 : ∀ q g : Q9 K, q.add (Q9.smul (-(L.offset * lthickness L.plies)) g) = q := by
+    intro q g; rw [hoff]; ext <;> simp only [Q9.add, Q9.smul] <;> ring
+  have z2 : ∀ q g : Q9 K, q.add (Q9.smul (-(L.offset ^ 2 * lthickness L.plies)) g) = q := by
+    intro q g; rw [hoff]; ext <;> simp only [Q9.add, Q9.smul] <;> ring
+  rw [z1] at hB hM
+  rw [z2] at hD hM
+  rw [hoff] at hA hB hD hE hM cA cB cD cE cM
+  exact ⟨h1, h2, by rw [ht, ct], by rw [hA, cA], by rw [hB, cB], by rw [hD, cD], by rw [hM, cM], hE, cE⟩
+
+/-- Offset clause refuted: under the hypotheses of the round trip, as soon as the offset is not zero (and `u1 ≠ 0`),
+the `B` reported by the lamination-parameter route is NOT the `B` of `calc_constitutive_matrix`. -/
+theorem lp_roundtrip_offset_counterexample [DecidableEq K] (m : MatProps K) (cst : List (K × K × K)) (L : Lam K)
+    (he1 : m.e1 ≠ 0) (h31 : m.nu31 = 0) (h32 : m.nu32 = 0)
+    (hcs : ∀ x ∈ cst, x.1 ^ 2 + x.2.1 ^ 2 = 1)
+    (hplies : L.plies = cst.map (mkLPly m)) (hT : lthickness L.plies ≠ 0) (hm : L.matobj = some m)
+    (hd : L.offset ≠ 0) (hu1 : (invariants m).u1 ≠ 0) :
+    L.calcLaminationParameters.1.calcABDEFromLP.1.B ≠ L.calcConstitutiveMatrix.B :=
+  lp_roundtrip_offset_counterexample_aux m cst L he1 h31 h32 hcs hplies hT hm hd hu1
+
+/-- `E` clause refuted: whenever the two transverse-shear integrals `E44 ≠ E55` differ (e.g. one ply at 0° with
+`g13 ≠ g23`), the `E` of the lamination-parameter route is NOT the `E` of `calc_constitutive_matrix`. -/
+theorem lp_roundtrip_E_counterexample [DecidableEq K] (m : MatProps K) (cst : List (K × K × K)) (L : Lam K)
+    (he1 : m.e1 ≠ 0) (h31 : m.nu31 = 0) (h32 : m.nu32 = 0)
+    (hcs : ∀ x ∈ cst, x.1 ^ 2 + x.2.1 ^ 2 = 1)
+    (hplies : L.plies = cst.map (mkLPly m)) (hT : lthickness L.plies ≠ 0) (hm : L.matobj = some m)
+    (hne : (abd (L.plies.map LPly.toPly) L.offset).A.q44 ≠ (abd (L.plies.map LPly.toPly) L.offset).A.q55) :
+    L.calcLaminationParameters.1.calcABDEFromLP.1.E ≠ L.calcConstitutiveMatrix.E :=
+  lp_roundtrip_E_counterexample_aux m cst L he1 h31 h32 hcs hplies hT hm hne
+
+/-- Material clause refuted on a concrete witness: ONE ply at 0°, thickness 1, no offset, of the isotropic material
+`(E, E, nu) = (1, 1, 1/4)` as `read_laminaprop` completes it (`nu13 = nu23 = 1/4`): the lamination-parameter route
+reports `A11 = 6/5`, `calc_constitutive_matrix` reports `A11 = 16/15`. -/
+theorem lp_roundtrip_material_counterexample :
+    readLaminaprop [(1 : ℚ), 1, 1 / 4] = some mIso ∧
+    lamIso.calcLaminationParameters.1.calcABDEFromLP.1.A ≠ lamIso.calcConstitutiveMatrix.A :=
+  ⟨mIso_read, lp_roundtrip_material_counterexample_aux⟩
+
+/-- Mixed materials refuted on a concrete witness: two plies at 0° of two planar materials (`e1 = 1` and `e1 = 2`),
+`lam.matobj` the first: the lamination-parameter route reports `A11 = 2`, the stack has `A11 = 3`. -/
+theorem lp_roundtrip_mixed_counterexample :
+    lamMixed.calcLaminationParameters.1.calcABDEFromLP.1.A ≠ lamMixed.calcConstitutiveMatrix.A :=
+  lp_roundtrip_mixed_counterexample_aux
+
+/-- `force_orthotropic` on an object without offset whose six matrices exist: raises nothing; in `A`, `B`, `D` exactly
+the entries coupling a direct component with the shear component — (1,3), (2,3), (3,1), (3,2) — become 0 and every
+other entry is unchanged; in `ABD` exactly the sixteen entries coupling `{ε_x, ε_y, κ_x, κ_y}` with `{γ_xy, κ_xy}`, in
+`ABDE` the same sixteen; `E`, `t`, the lamination parameters, plies and material are untouched. -/
+theorem force_orthotropic_spec [DecidableEq K] (L : Lam K) (A B D : Mat 3 K) (M : Mat 6 K) (M8 : Mat 8 K)
+    (hoff : L.offset = 0) (hA : L.A = some A) (hB : L.B = some B) (hD : L.D = some D)
+    (hM : L.ABD = some M) (hM8 : L.ABDE = some M8) :
+    L.forceOrthotropic.2 = none ∧
+    L.forceOrthotropic.1.A = some (fun i j => if shearCoupling i j then 0 else A i j) ∧
+    L.forceOrthotropic.1.B = some (fun i j => if shearCoupling i j then 0 else B i j) ∧
+    L.forceOrthotropic.1.D = some (fun i j => if shearCoupling i j then 0 else D i j) ∧
+    L.forceOrthotropic.1.ABD = some (fun i j => if shearCoupling i j then 0 else M i j) ∧
+    L.forceOrthotropic.1.ABDE =
+      some (fun i j => if i.val < 6 ∧ j.val < 6 ∧ shearCoupling i j then 0 else M8 i j) ∧
+    L.forceOrthotropic.1.E = L.E ∧ L.forceOrthotropic.1.t = L.t ∧ L.forceOrthotropic.1.offset = L.offset ∧
+    L.forceOrthotropic.1.xiA = L.xiA ∧ L.forceOrthotropic.1.xiB = L.xiB ∧ L.forceOrthotropic.1.xiD = L.xiD ∧
+    L.forceOrthotropic.1.xiE = L.xiE ∧ L.forceOrthotropic.1.plies = L.plies ∧
+    L.forceOrthotropic.1.matobj = L.matobj :=
+  force_orthotropic_spec_aux L A B D M M8 hoff hA hB hD hM hM8
+
+/-- With an offset `force_orthotropic` raises `RuntimeError` and changes nothing. -/
+theorem force_orthotropic_offset [DecidableEq K] (L : Lam K) (hoff : L.offset ≠ 0) :
+    L.forceOrthotropic = (L, some .runtimeError) :=
+  force_orthotropic_offset_aux L hoff
+
+/-- `ABD` and `ABDE` stay consistent with the blocks: zeroing the couplings in an assembled `[[A, B], [C, D]]` is
+assembling the zeroed blocks (and likewise for the 8×8 matrix); a symmetric matrix stays symmetric. -/
+theorem force_orthotropic_consistent (A B C D : Mat 3 K) (E : Mat 2 K) (M : Mat 6 K)
+    (hsym : ∀ i j, M i j = M j i) :
+    (fun i j => if shearCoupling i j then 0 else block6 A B C D i j) =
+      block6 (fun i j => if shearCoupling i j then 0 else A i j) (fun i j => if shearCoupling i j then 0 else B i j)
+        (fun i j => if shearCoupling i j then 0 else C i j) (fun i j => if shearCoupling i j then 0 else D i j) ∧
+    (fun i j => if i.val < 6 ∧ j.val < 6 ∧ shearCoupling i j then 0 else block8 M E i j) =
+      block8 (fun i j => if shearCoupling i j then 0 else M i j) E ∧
+    ∀ i j : Fin 6, (if shearCoupling i j then 0 else M i j) = (if shearCoupling j i then 0 else M j i) :=
+  ⟨dropShearCoupling_block6 A B C D, dropShearCoupling_block8 M E, dropShearCoupling_symm M hsym⟩
+
+/-- `force_symmetric` on an object without offset: raises nothing; `B` becomes the zero matrix, the two coupling
+blocks of `ABD` and of `ABDE` become zero, `A`, `D`, `E`, `t` are untouched (and so is `B_general`). -/
+theorem force_symmetric_spec [DecidableEq K] (L : Lam K) (A B C D : Mat 3 K) (E : Mat 2 K)
+    (hoff : L.offset = 0) (hM : L.ABD = some (block6 A B C D))
+    (hM8 : L.ABDE = some (block8 (block6 A B C D) E)) :
+    L.forceSymmetric.2 = none ∧
+    L.forceSymmetric.1.B = some (fun _ _ => 0) ∧
+    L.forceSymmetric.1.ABD = some (block6 A (fun _ _ => 0) (fun _ _ => 0) D) ∧
+    L.forceSymmetric.1.ABDE = some (block8 (block6 A (fun _ _ => 0) (fun _ _ => 0) D) E) ∧
+    L.forceSymmetric.1.A = L.A ∧ L.forceSymmetric.1.D = L.D ∧ L.forceSymmetric.1.E = L.E ∧
+    L.forceSymmetric.1.t = L.t ∧ L.forceSymmetric.1.BG = L.BG :=
+  force_symmetric_spec_aux L A B C D E hoff hM hM8
+
+/-- With an offset `force_symmetric` raises `RuntimeError` and changes nothing. -/
+theorem force_symmetric_offset [DecidableEq K] (L : Lam K) (hoff : L.offset ≠ 0) :
+    L.forceSymmetric = (L, some .runtimeError) :=
+  force_symmetric_offset_aux L hoff
+
+/-- `force_symmetric` gives what a symmetric stack gives: on a mid-plane-symmetric stack without offset it changes
+none of `A, B, D, E, ABD, ABDE` as `calc_constitutive_matrix` reported them (`B` was already zero). -/
+theorem force_symmetric_noop_on_symmetric_stack [DecidableEq K] (L : Lam K) (hoff : L.offset = 0)
+    (hsym : (L.plies.map LPly.toPly).reverse = L.plies.map LPly.toPly) :
+    L.calcConstitutiveMatrix.forceSymmetric.2 = none ∧
+    L.calcConstitutiveMatrix.forceSymmetric.1.A = L.calcConstitutiveMatrix.A ∧
+    L.calcConstitutiveMatrix.forceSymmetric.1.B = L.calcConstitutiveMatrix.B ∧
+    L.calcConstitutiveMatrix.forceSymmetric.1.D = L.calcConstitutiveMatrix.D ∧
+    L.calcConstitutiveMatrix.forceSymmetric.1.E = L.calcConstitutiveMatrix.E ∧
+    L.calcConstitutiveMatrix.forceSymmetric.1.ABD = L.calcConstitutiveMatrix.ABD ∧
+    L.calcConstitutiveMatrix.forceSymmetric.1.ABDE = L.calcConstitutiveMatrix.ABDE :=
+  force_symmetric_noop_aux L hoff hsym
+
+/-- `force_balanced_LP` where `calc_ABDE_from_lamination_parameters` can run: `xiA` becomes `[1, xiA1, 0, xiA3, 0]`; the
+new `A` has `A16 = A26 = 0` and — if `xiA[0]` was 1 — the same `A11, A12, A22, A66` as the old parameters give;
+`B`, `D`, `E` are recomputed from the unchanged `xiB, xiD, xiE`. -/
+theorem force_balanced_LP_spec (L : Lam K) (m : MatProps K) (t : K) (x xiB xiD xiE : Xi K)
+    (hm : L.matobj = some m) (ht : L.t = some t) (hA : L.xiA = some x) (hB : L.xiB = some xiB)
+    (hD : L.xiD = some xiD) (hE : L.xiE = some xiE) :
+    let Q := lpFormula (invariants m) (Xi.smul t ⟨1, x.x1, 0, x.x3, 0⟩)
+    let Q0 := lpFormula (invariants m) (Xi.smul t x)
+    L.forceBalancedLP.2 = none ∧ L.forceBalancedLP.1.xiA = some ⟨1, x.x1, 0, x.x3, 0⟩ ∧
+    L.forceBalancedLP.1.A = some (sym3 Q) ∧ Q.q16 = 0 ∧ Q.q26 = 0 ∧
+    (x.x0 = 1 → Q.q11 = Q0.q11 ∧ Q.q12 = Q0.q12 ∧ Q.q22 = Q0.q22 ∧ Q.q66 = Q0.q66) ∧
+    L.forceBalancedLP.1.B = L.calcABDEFromLP.1.B ∧ L.forceBalancedLP.1.D = L.calcABDEFromLP.1.D ∧
+    L.forceBalancedLP.1.E = L.calcABDEFromLP.1.E ∧
+    L.forceBalancedLP.1.ABD = some (block6 (sym3 Q) (sym3 (lpFormula (invariants m) (Xi.smul (t ^ 2 / 4) xiB)))
+      (sym3 (lpFormula (invariants m) (Xi.smul (t ^ 2 / 4) xiB)))
+      (sym3 (lpFormula (invariants m) (Xi.smul (t ^ 3 / 12) xiD)))) :=
+  force_balanced_LP_spec_aux L m t x xiB xiD xiE hm ht hA hB hD hE
+
+/-- `force_balanced_LP` forces what a balanced stack has: if every ply is accompanied by one of equal thickness at the
+opposite angle, the weighted sums of `sin 2θ` and `sin 4θ` — `xiA2`, `xiA4` up to the factor `1/t` — vanish. -/
+theorem balanced_stack_xiA (l : List (K × Trig K)) (h : K) :
+    (xsum wA h (l ++ l.map mirrorT)).x2 = 0 ∧ (xsum wA h (l ++ l.map mirrorT)).x4 = 0 :=
+  balanced_stack_xiA_aux l h
+
+/-- … on the object: for a balanced stack (plies carrying the double-angle attributes, listed as `l` followed by the
+mirror images of `l`) `calc_lamination_parameters` produces `xiA = [1, xiA1, 0, xiA3, 0]`, which `force_balanced_LP`
+leaves as it is. -/
+theorem balanced_stack_calc_xiA [DecidableEq K] (L : Lam K) (l : List (K × Trig K))
+    (hts : plyTrigs L.plies = some (l ++ l.map mirrorT)) (hT : lthickness L.plies ≠ 0) :
+    ∃ x : Xi K, L.calcLaminationParameters.1.xiA = some x ∧ x.x0 = 1 ∧ x.x2 = 0 ∧ x.x4 = 0 ∧
+      (⟨1, x.x1, 0, x.x3, 0⟩ : Xi K) = x :=
+  balanced_stack_calc_xiA_aux L l hts hT
+
+/-- `force_symmetric_LP` where `calc_ABDE_from_lamination_parameters` can run: `xiB` becomes zero, the new `B` is the
+zero matrix, `A`, `D`, `E` are the lamination-parameter formulas at the unchanged `xiA, xiD, xiE`, and `ABD`, `ABDE`
+are assembled with zero coupling blocks. -/
+theorem force_symmetric_LP_spec (L : Lam K) (m : MatProps K) (t : K) (xiA xiD xiE : Xi K)
+    (hm : L.matobj = some m) (ht : L.t = some t) (hA : L.xiA = some xiA) (hD : L.xiD = some xiD)
+    (hE : L.xiE = some xiE) :
+    L.forceSymmetricLP.2 = none ∧ L.forceSymmetricLP.1.xiB = some ⟨0, 0, 0, 0, 0⟩ ∧
+    L.forceSymmetricLP.1.B = some (fun _ _ => 0) ∧
+    L.forceSymmetricLP.1.A = some (sym3 (lpFormula (invariants m) (Xi.smul t xiA))) ∧
+    L.forceSymmetricLP.1.D = some (sym3 (lpFormula (invariants m) (Xi.smul (t ^ 3 / 12) xiD))) ∧
+    L.forceSymmetricLP.1.E = some (shearSwapped (lpFormula (invariants m) (Xi.smul t xiE))) ∧
+    L.forceSymmetricLP.1.ABD = some (block6 (sym3 (lpFormula (invariants m) (Xi.smul t xiA))) (fun _ _ => 0)
+      (fun _ _ => 0) (sym3 (lpFormula (invariants m) (Xi.smul (t ^ 3 / 12) xiD)))) ∧
+    L.forceSymmetricLP.1.ABDE = some (block8 (block6 (sym3 (lpFormula (invariants m) (Xi.smul t xiA)))
+      (fun _ _ => 0) (fun _ _ => 0) (sym3 (lpFormula (invariants m) (Xi.smul (t ^ 3 / 12) xiD))))
+      (shearSwapped (lpFormula (invariants m) (Xi.smul t xiE)))) :=
+  force_symmetric_LP_spec_aux L m t xiA xiD xiE hm ht hA hD hE
+
+/-- `force_symmetric_LP` forces what a symmetric stack has: for a mid-plane-symmetric sequence of (thickness, angle)
+without offset all five weighted sums behind `xiB` vanish. -/
+theorem symmetric_stack_xiB (ts : List (K × Trig K)) (h : ts.reverse = ts) :
+    xsum wB (-(tsum ts) / 2 + 0) ts = Xi.zero :=
+  symmetric_stack_xiB_aux ts h
+
+/-- … on the object: for a mid-plane-symmetric stack without offset `calc_lamination_parameters` produces
+`xiB = 0`, the value `force_symmetric_LP` assigns. -/
+theorem symmetric_stack_calc_xiB [DecidableEq K] (L : Lam K) (ts : List (K × Trig K))
+    (hts : plyTrigs L.plies = some ts) (hsym : ts.reverse = ts) (hoff : L.offset = 0)
+    (hT : lthickness L.plies ≠ 0) :
+    L.calcLaminationParameters.1.xiB = some ⟨0, 0, 0, 0, 0⟩ :=
+  symmetric_stack_calc_xiB_aux L ts hts hsym hoff hT
+
+/-- `read_lamination_parameters(thickness, laminaprop, xiA1 … xiE4)` (when `read_laminaprop` accepts the tuple): the
+laminate it returns has `t = thickness`, no offset, no plies, and its matrices are the lamination-parameter formulas
+`lpFormula` (written out in `Spec/Lamination.lean`) with the invariants `u1 … u7` of the material at
+`t·(1, xiA)`, `t²/4·(0, xiB)`, `t³/12·(1, xiD)`, `t·(1, xiE)`; `E = [[E55, E45], [E45, E44]]`; `ABD`, `ABDE` assembled
+from these blocks. -/
+theorem read_lamination_parameters_spec (th : K) (lp : List K) (m : MatProps K) (a b d e : Xi4 K)
+    (hlp : readLaminaprop lp = some m) :
+    ∃ R : Lam K, readLaminationParameters th lp a b d e = some (R, none) ∧
+      R.t = some th ∧ R.offset = 0 ∧ R.plies = [] ∧ R.matobj = some m ∧
+      R.A = some (sym3 (lpFormula (invariants m) (Xi.smul th ⟨1, a.x1, a.x2, a.x3, a.x4⟩))) ∧
+      R.B = some (sym3 (lpFormula (invariants m) (Xi.smul (th ^ 2 / 4) ⟨0, b.x1, b.x2, b.x3, b.x4⟩))) ∧
+      R.D = some (sym3 (lpFormula (invariants m) (Xi.smul (th ^ 3 / 12) ⟨1, d.x1, d.x2, d.x3, d.x4⟩))) ∧
+      R.E = some (shearSwapped (lpFormula (invariants m) (Xi.smul th ⟨1, e.x1, e.x2, e.x3, e.x4⟩))) ∧
+      R.ABD = some (block6
+        (sym3 (lpFormula (invariants m) (Xi.smul th ⟨1, a.x1, a.x2, a.x3, a.x4⟩)))
+        (sym3 (lpFormula (invariants m) (Xi.smul (th ^ 2 / 4) ⟨0, b.x1, b.x2, b.x3, b.x4⟩)))
+        (sym3 (lpFormula (invariants m) (Xi.smul (th ^ 2 / 4) ⟨0, b.x1, b.x2, b.x3, b.x4⟩)))
+        (sym3 (lpFormula (invariants m) (Xi.smul (th ^ 3 / 12) ⟨1, d.x1, d.x2, d.x3, d.x4⟩)))) ∧
+      R.ABDE = some (block8 (block6
+        (sym3 (lpFormula (invariants m) (Xi.smul th ⟨1, a.x1, a.x2, a.x3, a.x4⟩)))
+        (sym3 (lpFormula (invariants m) (Xi.smul (th ^ 2 / 4) ⟨0, b.x1, b.x2, b.x3, b.x4⟩)))
+        (sym3 (lpFormula (invariants m) (Xi.smul (th ^ 2 / 4) ⟨0, b.x1, b.x2, b.x3, b.x4⟩)))
+        (sym3 (lpFormula (invariants m) (Xi.smul (th ^ 3 / 12) ⟨1, d.x1, d.x2, d.x3, d.x4⟩))))
+        (shearSwapped (lpFormula (invariants m) (Xi.smul th ⟨1, e.x1, e.x2, e.x3, e.x4⟩)))) :=
+  read_lamination_parameters_spec_aux th lp m a b d e hlp
+
+/-- Corollary of the round trip: fed with the thickness and the sixteen parameters that `calc_lamination_parameters`
+computes for a single-material stack without offset (material with `nu31 = nu32 = 0`, angles on the unit circle),
+`read_lamination_parameters` returns a laminate with the `t, A, B, D, ABD` of that stack's
+`calc_constitutive_matrix` — and `E` with its two directions exchanged. -/
+theorem read_lamination_parameters_of_stack [DecidableEq K] (m : MatProps K) (lp : List K)
+    (cst : List (K × K × K)) (L : Lam K) (hlp : readLaminaprop lp = some m)
+    (he1 : m.e1 ≠ 0) (h31 : m.nu31 = 0) (h32 : m.nu32 = 0)
+    (hcs : ∀ x ∈ cst, x.1 ^ 2 + x.2.1 ^ 2 = 1)
+    (hplies : L.plies = cst.map (mkLPly m)) (hT : lthickness L.plies ≠ 0) (hoff : L.offset = 0)
+    (xa xb xd xe : Xi K)
+    (hxa : L.calcLaminationParameters.1.xiA = some xa) (hxb : L.calcLaminationParameters.1.xiB = some xb)
+    (hxd : L.calcLaminationParameters.1.xiD = some xd) (hxe : L.calcLaminationParameters.1.xiE = some xe) :
+    ∃ R : Lam K, readLaminationParameters (lthickness L.plies) lp ⟨xa.x1, xa.x2, xa.x3, xa.x4⟩
+        ⟨xb.x1, xb.x2, xb.x3, xb.x4⟩ ⟨xd.x1, xd.x2, xd.x3, xd.x4⟩ ⟨xe.x1, xe.x2, xe.x3, xe.x4⟩ = some (R, none) ∧
+      R.t = L.calcConstitutiveMatrix.t ∧ R.A = L.calcConstitutiveMatrix.A ∧ R.B = L.calcConstitutiveMatrix.B ∧
+      R.D = L.calcConstitutiveMatrix.D ∧ R.ABD = L.calcConstitutiveMatrix.ABD ∧
+      R.E = some (shearSwapped (abd (L.plies.map LPly.toPly) L.offset).A) :=
+  read_lamination_parameters_of_stack_aux m lp cst L hlp he1 h31 h32 hcs hplies hT hoff xa xb xd xe hxa hxb hxd hxe
+
+/-- `calc_equivalent_modulus` where it does not raise (`ABD` exists, `np.linalg.inv` returns `AI`, `t` is set):
+`e1 = 1/(t·AI[0,0])`, `e2 = 1/(t·AI[1,1])`, `g12 = 1/(t·AI[2,2])`, `nu12 = −AI[0,1]/AI[0,0]`,
+`nu21 = −AI[0,1]/AI[1,1]` with `AI` the inverse of the FULL 6×6 matrix; no matrix is changed. -/
+theorem equivalent_modulus_spec (inv : Mat 6 K → Option (Mat 6 K)) (L : Lam K) (M AI : Mat 6 K) (t : K)
+    (hM : L.ABD = some M) (hinv : inv M = some AI) (ht : L.t = some t) :
+    (L.calcEquivalentModulus inv).2 = none ∧
+    (L.calcEquivalentModulus inv).1.e1 = some (1 / (t * AI 0 0)) ∧
+    (L.calcEquivalentModulus inv).1.e2 = some (1 / (t * AI 1 1)) ∧
+    (L.calcEquivalentModulus inv).1.g12 = some (1 / (t * AI 2 2)) ∧
+    (L.calcEquivalentModulus inv).1.nu12 = some (-AI 0 1 / AI 0 0) ∧
+    (L.calcEquivalentModulus inv).1.nu21 = some (-AI 0 1 / AI 1 1) ∧
+    (L.calcEquivalentModulus inv).1.A = L.A ∧ (L.calcEquivalentModulus inv).1.B = L.B ∧
+    (L.calcEquivalentModulus inv).1.D = L.D ∧ (L.calcEquivalentModulus inv).1.E = L.E ∧
+    (L.calcEquivalentModulus inv).1.ABD = L.ABD ∧ (L.calcEquivalentModulus inv).1.ABDE = L.ABDE :=
+  equivalent_modulus_spec_aux inv L M AI t hM hinv ht
+
+/-- When the coupling blocks of `ABD` vanish, the 3×3 block `AI[0:3, 0:3]` that `calc_equivalent_modulus` reads is a
+right inverse of `A` (genuine matrix products): the constants are then those of `(A/t)⁻¹`.  (With `B ≠ 0` they are
+those of the inverse of the Schur complement `A − B D⁻¹ B`, not of `A`.) -/
+theorem equivalent_modulus_uses_inverse_of_A (A D : Mat 3 K) (AI : Mat 6 K)
+    (h : Matrix.of (block6 A (fun _ _ => 0) (fun _ _ => 0) D) * Matrix.of AI = 1) :
+    Matrix.of A * Matrix.of (fun (i j : Fin 3) => AI ⟨i.val, by omega⟩ ⟨j.val, by omega⟩) = 1 :=
+  inverse_block_of_uncoupled A D AI h
+
+/-- A single unrotated (`c = 1, s = 0`) orthotropic ply without offset, `np.linalg.inv` returning a right inverse:
+`calc_equivalent_modulus` after `calc_constitutive_matrix` returns the ply's own `e1, e2, g12, nu12, nu21`. -/
+theorem equivalent_modulus_single_ply (inv : Mat 6 K → Option (Mat 6 K)) (L : Lam K) (m : MatProps K) (t : K)
+    (hplies : L.plies.map LPly.toPly = [⟨t, rotQ 1 0 (planeStressQ m)⟩]) (hoff : L.offset = 0)
+    (ht : t ≠ 0) (he1 : m.e1 ≠ 0) (he2 : m.e2 ≠ 0) (hg : m.g12 ≠ 0) (hd : 1 - m.nu12 * m.nu21 ≠ 0)
+    (M AI : Mat 6 K) (hM : L.calcConstitutiveMatrix.ABD = some M) (hinv : inv M = some AI)
+    (hprod : Matrix.of M * Matrix.of AI = 1) :
+    (L.calcConstitutiveMatrix.calcEquivalentModulus inv).2 = none ∧
+    (L.calcConstitutiveMatrix.calcEquivalentModulus inv).1.e1 = some m.e1 ∧
+    (L.calcConstitutiveMatrix.calcEquivalentModulus inv).1.e2 = some m.e2 ∧
+    (L.calcConstitutiveMatrix.calcEquivalentModulus inv).1.g12 = some m.g12 ∧
+    (L.calcConstitutiveMatrix.calcEquivalentModulus inv).1.nu12 = some m.nu12 ∧
+    (L.calcConstitutiveMatrix.calcEquivalentModulus inv).1.nu21 = some m.nu21 :=
+  equivalent_modulus_single_ply_aux inv L m t hplies hoff ht he1 he2 hg hd M AI hM hinv hprod
+
+end lamination
+
+section lamination_real
+
+/-- Positive definiteness survives `force_orthotropic`: for ANY 6×6 matrix with `xᵀ M x > 0` for all `x ≠ 0`, the
+matrix with the direct–shear couplings zeroed is positive definite as well (it is the average of `M` and of the
+matrix of the mirrored laminate). -/
+theorem force_orthotropic_posdef (M : Mat 6 ℝ) (h : PosDef6 M) :
+    PosDef6 (fun i j => if shearCoupling i j then 0 else M i j) :=
+  force_orthotropic_posdef_aux M h
+
+/-- … in particular for admissible plies: a non-empty stack of admissible plies with positive thicknesses at angles
+on the unit circle, no offset; after `calc_constitutive_matrix` and `force_orthotropic` (which raises nothing) the
+reported `ABD` is positive definite and symmetric. -/
+theorem force_orthotropic_posdef_stack (L : Lam ℝ) (ps : List (PlyIn ℝ)) (ms : List (MatProps ℝ))
+    (hoff : L.offset = 0) (hne : ps ≠ []) (hlen : ms.length = ps.length)
+    (hplies : L.plies.map LPly.toPly =
+      (List.zip ps ms).map fun pm => ⟨pm.1.t, rotQ pm.1.c pm.1.s (planeStressQ pm.2)⟩)
+    (hadm : ∀ m ∈ ms, Admissible m) (hcs : ∀ p ∈ ps, p.c ^ 2 + p.s ^ 2 = 1 ∧ 0 < p.t) :
+    L.calcConstitutiveMatrix.forceOrthotropic.2 = none ∧
+    ∃ M, L.calcConstitutiveMatrix.forceOrthotropic.1.ABD = some M ∧ PosDef6 M ∧ ∀ i j, M i j = M j i :=
+  force_orthotropic_posdef_stack_aux L ps ms hoff hne hlen hplies hadm hcs
+
+/-- Positive definiteness survives `force_symmetric` as well (zeroing the two coupling blocks). -/
+theorem force_symmetric_posdef (M : Mat 6 ℝ) (h : PosDef6 M) : PosDef6 (zeroCoupling M) :=
+  force_symmetric_posdef_aux M h
+
+end lamination_real
+
+/-! Non-vacuity of the lamination-parameter theorems. -/
+
+/-- the hypotheses of `lp_roundtrip_offset_partial`, `…_offset_counterexample`, `…_E_counterexample` hold for a
+concrete one-ply laminate (planar material, offset 1, `g13 ≠ g23`) -/
+example :
+    mPlanar.e1 ≠ 0 ∧ mPlanar.nu31 = 0 ∧ mPlanar.nu32 = 0 ∧
+    (∀ x ∈ [((1:ℚ), (0:ℚ), (1:ℚ))], x.1 ^ 2 + x.2.1 ^ 2 = 1) ∧
+    lamOffset.plies = [((1:ℚ), (0:ℚ), (1:ℚ))].map (mkLPly mPlanar) ∧ lthickness lamOffset.plies ≠ 0 ∧
+    lamOffset.matobj = some mPlanar ∧ lamOffset.offset ≠ 0 ∧ (invariants mPlanar).u1 ≠ 0 ∧
+    (abd (lamOffset.plies.map LPly.toPly) lamOffset.offset).A.q44 ≠
+      (abd (lamOffset.plies.map LPly.toPly) lamOffset.offset).A.q55 := lamOffset_hyps
+
+/-- `rotQ_eq_invariants`, `lp_roundtrip_partial`: a planar material exists (`mPlanar`: `nu13 = nu23 = 0`) -/
+example : mPlanar.e1 ≠ 0 ∧ mPlanar.nu31 = 0 ∧ mPlanar.nu32 = 0 :=
+  ⟨lamOffset_hyps.1, lamOffset_hyps.2.1, lamOffset_hyps.2.2.1⟩
+
+/-- `force_orthotropic_spec`, `force_symmetric_spec`: the object `calc_constitutive_matrix` leaves has all six
+matrices and — for a laminate without offset — offset 0. -/
+example (L : Lam ℚ) (h : L.offset = 0) :
+    L.calcConstitutiveMatrix.offset = 0 ∧ L.calcConstitutiveMatrix.A.isSome ∧ L.calcConstitutiveMatrix.ABD.isSome ∧
+      L.calcConstitutiveMatrix.ABDE.isSome := ⟨h, rfl, rfl, rfl⟩
+
+/-- `balanced_stack_calc_xiA`, `symmetric_stack_calc_xiB`: a two-ply stack `[+θ, −θ]` resp. `[θ, θ]` (`cos θ = 3/5`)
+meets the hypotheses. -/
+example :
+    plyTrigs ([⟨1, Q9.zero, some (trigOf (3/5) (4/5))⟩, ⟨1, Q9.zero, some (mirrorT (1, trigOf (3/5) (4/5))).2⟩] :
+      List (LPly ℚ)) = some ([((1:ℚ), trigOf (3/5) (4/5))] ++ [((1:ℚ), trigOf (3/5) (4/5))].map mirrorT) ∧
+    lthickness ([⟨1, Q9.zero, some (trigOf (3/5) (4/5))⟩, ⟨1, Q9.zero, some (mirrorT (1, trigOf (3/5) (4/5))).2⟩] :
+      List (LPly ℚ)) ≠ 0 ∧
+    [((1:ℚ), trigOf (3/5 : ℚ) (4/5)), ((1:ℚ), trigOf (3/5 : ℚ) (4/5))].reverse =
+      [((1:ℚ), trigOf (3/5 : ℚ) (4/5)), ((1:ℚ), trigOf (3/5 : ℚ) (4/5))] := by
+  refine ⟨rfl, ?_, rfl⟩
+  norm_num [lthickness]
+
+/-- `force_orthotropic_posdef`: the identity matrix is positive definite. -/
+example : PosDef6 (fun i j => if i = j then (1 : ℝ) else 0) := by
+  intro x hx
+  have : qform6 (fun i j => if i = j then (1 : ℝ) else 0) x = ∑ i, x i ^ 2 := by
+    simp [qform6_expand, Finset.sum_ite_eq, sq]
+  rw [this]
+  obtain ⟨i, hi⟩ : ∃ i, x i ≠ 0 := by
+    by_contra hall
+    exact hx (funext fun i => by simpa using fun h => hall ⟨i, h⟩)
+  exact Finset.sum_pos' (fun j _ => sq_nonneg _) ⟨i, Finset.mem_univ _, by positivity⟩
+
+/-- `read_lamination_parameters_spec`, `force_*_LP_spec`: `read_laminaprop` accepts the isotropic tuple, and the
+object `read_lamination_parameters` returns has material, thickness and the four parameter vectors. -/
+example : readLaminaprop [(1 : ℚ), 1, 1 / 4] = some mIso := mIso_read
+
+/-- `equivalent_modulus_single_ply`: a right inverse exists for the one-ply `ABD` of the material `mOne`, thickness 1
+(`ABD = diag(1,1,1,1/12,1/12,1/12)`, inverse `diag(1,1,1,12,12,12)`). -/
+example : Matrix.of (block6 (sym3 (Q9.smul (1:ℚ) (rotQ 1 0 (planeStressQ mOne)))) (sym3 Q9.zero) (sym3 Q9.zero)
+      (sym3 (Q9.smul ((1:ℚ) ^ 3 / 12) (rotQ 1 0 (planeStressQ mOne))))) *
+    Matrix.of (fun i j : Fin 6 => if i = j then (if i.val < 3 then (1:ℚ) else 12) else 0) = 1 := by
+  have hq : rotQ (1:ℚ) 0 (planeStressQ mOne) = ⟨1, 0, 1, 0, 0, 1, 1, 0, 1⟩ := by
+    ext <;> norm_num [rotQ, planeStressQ, mOne, MatProps.nu21]
+  rw [hq]
+  ext i j
+  fin_cases i <;> fin_cases j <;>
+    norm_num [Matrix.mul_apply, Fin.sum_univ_six, block6, sym3, mat3, Q9.smul, Q9.zero, Matrix.one_apply]
 
 /-! Non-vacuity: a concrete 3-ply unsymmetric stack meets the hypotheses of `abd_posdef`. -/
 example : Admissible (⟨142, 8, 3/10, 5, 5, 3, 8, 3/10, 3/10⟩ : MatProps ℝ) := by
